@@ -350,7 +350,10 @@ class ListNode(SequenceNode[Tuple[T, ...]], Generic[T]):
                     to_node=node
                 )
             else:
-                if self.all_children_are_leaves() and node.all_children_are_leaves():
+                if self.all_children_are_leaves() and node.all_children_are_leaves() and \
+                        all(c.total_size > 0 for c in self) and all(c.total_size > 0 for c in node):
+                    # the penalty can only be waived if every element has a positive size;
+                    # otherwise removing or inserting a zero-sized leaf (null, "") would be free
                     insert_remove_penalty = 0
                 else:
                     insert_remove_penalty = 1
